@@ -3,6 +3,9 @@
 package omniwitness
 
 import (
+	"golang.org/x/mod/sumdb/tlog"
+	"io"
+	"bytes"
 	"sort"
 	"context"
 	_ "embed"
@@ -169,10 +172,125 @@ func checkConfig(doc []byte) ([]string, error) {
 			}
 		}
 	}
+	for li, l := range logCfg.Logs {
+		if l.Feeder == None {
+			continue
+		}
+		if err := feedShippedEntry(l, rawDoc.Logs[li].URL); err != nil {
+			return classes, err
+		}
+	}
 	if len(ids) != len(m) {
 		return classes, fmt.Errorf("witness map has %d logs, feeder list %d", len(m), len(ids))
 	}
 	return classes, nil
+}
+
+// feedShippedEntry feeds one shipped entry for real: same origin, same URL string, same
+// feeder function as Main would use, but a key of the harness (so that a checkpoint can be
+// signed) and a network stub that serves a first checkpoint exactly where a log living at
+// the URL AS WRITTEN IN THE FILE serves it. The recording witness must receive it.
+func feedShippedEntry(l LogInfo, rawURL string) error {
+	ru, err := url.Parse(strings.TrimSpace(rawURL))
+	if err != nil {
+		return fmt.Errorf("harness: %v", err)
+	}
+	key := vlib.NewKey("c17.example/substitute", "c17-substitute")
+	lc, err := config.NewLog(l.Origin, key.VKey(), l.URL)
+	if err != nil {
+		return fmt.Errorf("harness: %v", err)
+	}
+	br := vlib.RootBranch("C17", 0)
+	root := br.Root(5)
+	text := vlib.CheckpointText(l.Origin, 5, root[:], nil)
+	if l.Feeder == SumDB {
+		text = string(tlog.FormatTree(tlog.Tree{N: 5, Hash: tlog.Hash(root)}))
+	}
+	cp := vlib.Note(text, key.SigLine(text))
+	dir := ru.Path[:strings.LastIndex(ru.Path, "/")+1]
+	if dir == "" {
+		dir = "/"
+	}
+	var seen []string
+	var mu sync.Mutex
+	serve := rtFunc17(func(req *http.Request) (*http.Response, error) {
+		mu.Lock()
+		seen = append(seen, req.URL.String())
+		mu.Unlock()
+		mk := func(code int, body []byte) (*http.Response, error) {
+			return &http.Response{StatusCode: code, Status: fmt.Sprint(code), Header: http.Header{}, Body: io.NopCloser(bytes.NewReader(body)), Request: req, ContentLength: int64(len(body))}, nil
+		}
+		if !strings.EqualFold(req.URL.Host, ru.Host) {
+			return mk(404, []byte("no such host here"))
+		}
+		switch req.URL.Path {
+		case dir + "checkpoint", dir + "checkpoint.txt", strings.TrimSuffix(ru.Path, "/") + "/latest":
+			return mk(200, cp)
+		case dir + "api/v1/log":
+			// a Rekor that has exactly the shard the file names
+			b, _ := json.Marshal(map[string]any{"treeID": "1", "signedTreeHead": "not this one", "inactiveShards": []any{
+				map[string]any{"treeID": ru.Query().Get("treeID"), "signedTreeHead": string(cp)}}})
+			return mk(200, b)
+		}
+		return mk(404, []byte("not found"))
+	})
+	rw := &recordingWitness17{}
+	ctx, cancel := context.WithTimeout(context.Background(), 20*time.Second)
+	defer cancel()
+	done := make(chan error, 1)
+	go func() {
+		defer func() {
+			if p := recover(); p != nil {
+				done <- fmt.Errorf("panic: %v", p)
+			}
+		}()
+		done <- l.Feeder.FeedFunc()(ctx, lc, rw, &http.Client{Transport: serve, Timeout: 5 * time.Second}, 0)
+	}()
+	var ferr error
+	select {
+	case ferr = <-done:
+	case <-time.After(40 * time.Second):
+		return fmt.Errorf("entry %q: feeder did not return within 40s", l.Origin)
+	}
+	rw.mu.Lock()
+	defer rw.mu.Unlock()
+	if len(rw.cps) != 1 || !bytes.Equal(rw.cps[0], cp) || rw.ids[0] != lc.ID {
+		mu.Lock()
+		defer mu.Unlock()
+		return fmt.Errorf("entry %q (%s): a log serving its first checkpoint at the URL written in the file (%s) cannot be fed: feeder returned %v, the witness received %d updates; requests made: %v", l.Origin, feederName(l.Feeder), rawURL, ferr, len(rw.cps), seen)
+	}
+	return nil
+}
+
+func feederName(f Feeder) string {
+	for n, v := range feederByName {
+		if v == f {
+			return n
+		}
+	}
+	return "?"
+}
+
+type rtFunc17 func(*http.Request) (*http.Response, error)
+
+func (f rtFunc17) RoundTrip(r *http.Request) (*http.Response, error) { return f(r) }
+
+type recordingWitness17 struct {
+	mu  sync.Mutex
+	ids []string
+	cps [][]byte
+}
+
+func (w *recordingWitness17) GetLatestCheckpoint(ctx context.Context, logID string) ([]byte, error) {
+	return nil, os.ErrNotExist
+}
+
+func (w *recordingWitness17) Update(ctx context.Context, logID string, oldSize uint64, newCP []byte, proof [][]byte) ([]byte, error) {
+	w.mu.Lock()
+	defer w.mu.Unlock()
+	w.ids = append(w.ids, logID)
+	w.cps = append(w.cps, append([]byte{}, newCP...))
+	return newCP, nil
 }
 
 type cfgMutation struct {
@@ -319,6 +437,7 @@ func startMainPolling(doc []byte) error {
 		return fmt.Errorf("harness: %v", err)
 	}
 	rt := &refusingTransport{}
+	rp := &readRecorder{LogStatePersistence: inmemory.NewPersistence(), read: map[string]int{}}
 	wk := vlib.NewKey("witness.example/w", "wit")
 	ctx, cancel := context.WithCancel(context.Background())
 	done := make(chan error, 1)
@@ -328,8 +447,9 @@ func startMainPolling(doc []byte) error {
 				done <- fmt.Errorf("panic: %v", p)
 			}
 		}()
-		done <- Main(ctx, OperatorConfig{WitnessKeys: []note.Signer{wk.Signer(), wk.CosigSigner()}, WitnessVerifier: vlib.WitnessKey{K: wk, Kind: vlib.WKCosig}.Verifier(), FeedInterval: 200 * time.Millisecond},
-			inmemory.NewPersistence(), ln, &http.Client{Transport: rt})
+		done <- Main(ctx, OperatorConfig{WitnessKeys: []note.Signer{wk.Signer(), wk.CosigSigner()}, WitnessVerifier: vlib.WitnessKey{K: wk, Kind: vlib.WKCosig}.Verifier(), FeedInterval: 200 * time.Millisecond,
+			RestDistributorBaseURL: "http://distributor.invalid", DistributeInterval: 200 * time.Millisecond},
+			rp, ln, &http.Client{Transport: rt})
 	}()
 	defer func() {
 		cancel()
@@ -372,6 +492,13 @@ func startMainPolling(doc []byte) error {
 				missing = append(missing, fmt.Sprintf("%q (%s, %s)", l.Origin, l.Feeder, l.URL))
 			}
 		}
+		// the distributor asks the witness about every configured log, polled or not: the
+		// list it was given is the configured list
+		for _, l := range rawDoc.Logs {
+			if rp.count(logfmt.ID(l.Origin)) == 0 {
+				missing = append(missing, fmt.Sprintf("%q (never asked about by the distributor: the log list handed to it is not the configured one)", l.Origin))
+			}
+		}
 		if len(missing) == 0 {
 			return nil
 		}
@@ -381,10 +508,30 @@ func startMainPolling(doc []byte) error {
 				got = append(got, r.String())
 			}
 			sort.Strings(got)
-			return fmt.Errorf("30s (150 poll intervals) after Main started with polling enabled no request has been made from the URL of %v; requests seen: %v", missing, uniq(got))
+			return fmt.Errorf("30s (150 poll intervals) after Main started with polling enabled no request has been made from the URL of / no question asked about %v; requests seen: %v", missing, uniq(got))
 		}
 		time.Sleep(50 * time.Millisecond)
 	}
+}
+
+// readRecorder counts the reads of each log's state.
+type readRecorder struct {
+	LogStatePersistence
+	mu   sync.Mutex
+	read map[string]int
+}
+
+func (r *readRecorder) ReadOps(logID string) (LogStateReadOps, error) {
+	r.mu.Lock()
+	r.read[logID]++
+	r.mu.Unlock()
+	return r.LogStatePersistence.ReadOps(logID)
+}
+
+func (r *readRecorder) count(id string) int {
+	r.mu.Lock()
+	defer r.mu.Unlock()
+	return r.read[id]
 }
 
 func uniq(s []string) []string {
